@@ -8,7 +8,7 @@ import (
 
 const verifMaxU64 = ^uint64(0)
 
-//verif:harness prop=C45 reach=done,overflow,exact
+//verif:harness prop=C45 reach=done,overflow,exact merge=0
 func VerifC45Mul2div() {
 	a, b, c, d := vr.U64("a"), vr.U64("b"), vr.U64("c"), vr.U64("d")
 	vr.Assume(d != 0)
